@@ -31,6 +31,7 @@ import unittest
 
 TRACE = []
 VPID = 0
+EXEC = {}             # (virtual pid, test id) -> executions so far (scripts x@K)
 PROBE = None          # callable -> tuple appended to each in-memory event
 _trace_fd = None
 _pid = None
@@ -402,12 +403,25 @@ class VTCase(unittest.TestCase):
     def _body(self):
         vt = self._vt
         emit('t', vt['n'], 'body')
+        key = (VPID, vt['n'])
+        nth = EXEC[key] = EXEC.get(key, 0) + 1
         for act in vt.get('acts') or ():
             _file_action(act)
         _do_writes(vt.get('w'))
         for act in vt.get('th') or ():
             thread_action(act)
+        self._script(nth)
+        # reached only when the script did not raise
+        _do_writes(vt.get('w2'))
+
+    def _script(self, nth):
+        vt = self._vt
         s = vt['s']
+        if '@' in s:
+            # 'fail@K' / 'error@K': bad on the K-th execution in this process only
+            s, k = s.split('@')
+            if int(k) != nth:
+                return
         if s.startswith('die_body:'):
             if in_child():
                 die(s.split(':', 1)[1])
@@ -431,6 +445,33 @@ class VTCase(unittest.TestCase):
             raise SystemExit(3)
         if s == 'kbint':
             raise KeyboardInterrupt()
+        if s == 'sub_skip':
+            # a skip raised inside a subTest block: reported while the test is
+            # running; the test itself goes on and passes
+            with self.subTest(i=0):
+                emit('t', vt['n'], 'sub', 0, 's')
+                self.skipTest('skip inside a subtest')
+            with self.subTest(i=1):
+                emit('t', vt['n'], 'sub', 1, 'p')
+            return
+        if s == 'redir_sub_fail':
+            # a well-behaved test that redirects sys.stdout around a failing
+            # subtest and restores it itself
+            import contextlib
+            with contextlib.redirect_stdout(io.StringIO()):
+                with self.subTest(i=0):
+                    emit('t', vt['n'], 'sub', 0, 'f')
+                    self.fail('subfail under redirect_stdout')
+            return
+        if s == 'leave_replaced':
+            # a test that replaces sys.stdout and never puts it back
+            sys.stdout = io.StringIO()
+            return
+        if s == 'warnfilter':
+            import warnings
+            warnings.simplefilter('error', ResourceWarning)
+            warnings.filterwarnings('ignore', category=DeprecationWarning, module='vtw')
+            return
         if s.startswith('sub:'):
             nf, ne, np_ = (int(x) for x in s[4:].split(','))
             k = 0
@@ -448,6 +489,7 @@ class VTCase(unittest.TestCase):
                 with self.subTest(i=k):
                     emit('t', vt['n'], 'sub', k, 'p')
                     k += 1
+                    _do_writes(vt.get('wsub'))
             return
         raise AssertionError('unknown script %r' % (s,))
 
